@@ -203,9 +203,11 @@ JoinApply(U, dst, src, lid) ==
       newS    == SeqRange(new)
       ents1   == dst.ents \cup newS
       nidx1   == dst.nidx \cup NextsOf(U, newS)
-      merged  == FindHeadsSeq(U, MergeKeys(dst.heads, src.heads))
-      \* notReferencedByNewItems, notInCurrentNexts (the reverse index after the update), and - since
-      \* the repair of the foreign-head defect - only entries the log holds
+      \* since the repairs of the foreign-head defects only entries the log holds take part: a head of the
+      \* source that was skipped (foreign log id) neither becomes a head nor retires one
+      allH    == MergeKeys(dst.heads, src.heads)
+      merged  == FindHeadsSeq(U, FilterSeq(allH, SeqRange(allH) \cap ents1))
+      \* notReferencedByNewItems, notInCurrentNexts (the reverse index after the update)
       heads1  == FilterSeq(merged, (SeqRange(merged) \ (NextsOf(U, newS) \cup nidx1)) \cap ents1)
   IN [ents |-> ents1, heads |-> heads1, nidx |-> nidx1, new |-> new]
 
